@@ -96,7 +96,7 @@ def out_bytes(fm):
 CLASSES = ['AnalyzeImage', 'Spm99AnalyzeImage', 'Spm2AnalyzeImage', 'Nifti1Pair', 'Nifti1Image', 'Nifti2Pair',
            'Nifti2Image', 'MGHImage', 'Cifti2Image']
 VARIANTS = ['f2i', 'int', 'override', 'compat', 'smallest', 'smallest_float', 'preset_scale', 'user_offset',
-            'small_offset', 'exts', 'bad_override', '4d']
+            'small_offset', 'exts', 'bad_override', '4d', 'xflip_false', 'xflip_true']
 
 
 def get_class(name):
@@ -141,6 +141,8 @@ def make_image(spec):
         img.header.set_slope_inter(*spec['preset'])
     if spec.get('offset'):
         img.header.set_data_offset(spec['offset'])
+    if spec.get('x_flip') is not None:
+        img.header.default_x_flip = bool(spec['x_flip'])      # instance flag of the image's own header
     for j in range(spec.get('nexts', 0)):
         img.header.extensions.append(Nifti1Extension(6, b'comment %d ' % j * (j + 1)))
     kw = {}
@@ -175,6 +177,10 @@ def specs_for(cls, variant):
             return dict(base, data_dtype='<i4', shape=[3, 4, 2, 5])
         if variant == 'override':          # MGH stores float data as int16 by casting (no scaling)
             return dict(base, data_dtype='<f4', set_dtype='<i2')
+        return None
+    if variant in ('xflip_false', 'xflip_true'):
+        if cls.startswith('Spm') or cls == 'AnalyzeImage':
+            return dict(base, data_dtype='<i2', x_flip=(variant == 'xflip_true'))
         return None
     if variant == 'f2i':
         return dict(base, set_dtype='<i2')
@@ -224,6 +230,8 @@ def random_spec(rng):
     elif r < 0.7 and nifti:
         s['alias'] = rng.choice(['compat', 'smallest'])
         s['small'] = rng.random() < 0.5
+    if (cls.startswith('Spm') or cls == 'AnalyzeImage') and rng.random() < 0.5:
+        s['x_flip'] = rng.random() < 0.5
     if rng.random() < 0.2 and (nifti or cls.startswith('Spm')):
         s['preset'] = (rng.choice([2.0, 0.5, 3.25]), rng.choice([0.0, 1.0, -4.5]) if nifti else None)
     if nifti and rng.random() < 0.25:
@@ -645,6 +653,154 @@ def part_histories(chk, specs, nmat):
                            theorem='correspondence C07/Model.v <-> to_file_map')
 
 
+ALIAS_DATA = [('<i4', True), ('<i8', True), ('<i2', False), ('<f4', False), ('|u1', True)]
+ALIAS_OPS = ['smallest', 'compat', 'explicit', 'save']
+
+
+def alias_base(cls, dd, small):
+    return dict(cls=cls, shape=[3, 4, 2], seed=5, data_dtype=dd, small=small)
+
+
+def alias_request_spec(base, req):
+    """The spec of a FRESH image carrying the currently requested alias / explicit dtype."""
+    sp = dict(base)
+    if req in ('smallest', 'compat'):
+        sp['alias'] = req
+    elif req is not None:
+        sp['set_dtype'] = req
+    return sp
+
+
+def run_alias_history(base, ops, faults=None, fresh_cache=None):
+    """Execute a history of set_data_dtype(alias | explicit) / save on ONE image object.
+    Returns, per save: (index, request, result, calls, state, bytes, before, after, fresh)."""
+    img, _ = make_image(base)
+    req = None
+    out = []
+    sets = []
+    fresh_cache = {} if fresh_cache is None else fresh_cache
+    for j, op in enumerate(ops):
+        if op in ('smallest', 'compat'):
+            img.set_data_dtype(op)
+            req = op
+            sets.append(op)
+        elif op == 'explicit' or op.startswith('explicit:'):
+            dt = op.split(':')[1] if ':' in op else '<i2'
+            img.set_data_dtype(np.dtype(dt))
+            req = dt
+            sets.append(dt)
+        else:
+            k = None if not faults else faults.get(j)
+            before = snapshot(img)
+            ctr = Ctr(k)
+            fm = file_map_for(type(img), ctr)
+            res = 'ok'
+            with warnings.catch_warnings():
+                warnings.simplefilter('ignore')
+                try:
+                    img.to_file_map(fm)
+                except Exception as e:  # noqa
+                    res = exc_enum(e)
+            key = (base['cls'], base['data_dtype'], base.get('small'), req)
+            if key not in fresh_cache:
+                f = attempt(alias_request_spec(base, req), None, healthy_after=False)
+                fresh_cache[key] = (f['res'], f['bytes'])
+            out.append(dict(j=j, req=req, k=k, res=res, n=ctr.n, state=model_state(img, base['cls']), bytes=out_bytes(fm),
+                            before=before, after=snapshot(img), fresh=fresh_cache[key], sets=sets))
+            sets = []
+    return out
+
+
+def part_alias_histories(chk, nmat):
+    """Alias-switching histories on one NIfTI image object: every save must write exactly what
+    a fresh image with the same data and the CURRENTLY requested alias / dtype writes, leave
+    the object unchanged, and agree with the model (whose alias-resolution oracle is measured
+    on that fresh image) run from the chained model state."""
+    import itertools
+    rng = chk.rng
+    hists = []
+    for cls in ('Nifti1Image', 'Nifti2Image', 'Nifti1Pair', 'Nifti2Pair'):
+        for ops in itertools.product(ALIAS_OPS, repeat=3):          # exhaustive: all histories of 3 ops + a final save
+            hists.append((alias_base(cls, '<i4', True), list(ops) + ['save'], None))
+    for _ in range(chk.n(80, 1500)):
+        cls = rng.choice(['Nifti1Image', 'Nifti2Image', 'Nifti1Pair', 'Nifti2Pair'])
+        dd, small = rng.choice(ALIAS_DATA)
+        ops = [rng.choice(ALIAS_OPS + ['save', 'explicit:<f4', 'explicit:|u1']) for _ in range(rng.randrange(3, 7))] + ['save']
+        faults = {j: rng.randrange(0, 8) for j, op in enumerate(ops[:-1]) if op == 'save' and rng.random() < 0.3}
+        hists.append((alias_base(cls, dd, small), ops, faults))
+    fresh_cache = {}
+    runs = [run_alias_history(b, ops, faults, fresh_cache) for b, ops, faults in hists]
+    # model: chained state; the environment (alias resolution, scaling) of each save is that of the fresh image
+    mstate = [None] * len(hists)
+    maxs = max(len(r) for r in runs)
+    mres = [[None] * len(r) for r in runs]
+    case_cache = {}
+    for si in range(maxs):
+        lines = []
+        for hi, (base, ops, faults) in enumerate(hists):
+            if si >= len(runs[hi]):
+                continue
+            sv = runs[hi][si]
+            ck = (base['cls'], base['data_dtype'], base.get('small'), sv['req'])
+            if ck not in case_cache:
+                case_cache[ck] = model_case(alias_request_spec(base, sv['req']), nmat)
+            K, od, st0, env = case_cache[ck]
+            hc = get_class(base['cls']).header_class()
+            st = (mstate[hi] or '/'.join(model_case(base, nmat)[2])).split('/') if mstate[hi] or si == 0 else st0
+            # the set_data_dtype calls since the previous save, applied to the model state
+            for q in sv['sets']:
+                if q in ('smallest', 'compat'):      # Nifti1Pair.set_data_dtype(alias): the header is not touched
+                    st[5] = q
+                else:                                # explicit dtype: alias cleared, header datatype set
+                    st[5] = '-'
+                    st[1] = str(dtype_code(hc, q))
+            lines.append(f"{hi} run {-1 if sv['k'] is None else sv['k']} " + fmt_case(K, od, st, env))
+        mout = run_model(PROP, lines)
+        for hi in range(len(hists)):
+            if si < len(runs[hi]):
+                m = mout.get(str(hi), '')
+                mres[hi][si] = m
+                f = m.split()
+                if len(f) >= 4:
+                    mstate[hi] = f[3][3:]
+    for hi, (base, ops, faults) in enumerate(hists):
+        for si, sv in enumerate(runs[hi]):
+            case = {'alias_history': {'base': base, 'ops': ops, 'faults': {str(k): v for k, v in (faults or {}).items()}, 'save': sv['j']}}
+            chk.count(key=('alias_hist', hi, si), tag='alias_history_save',
+                      sample={'class': base['cls'], 'data': base['data_dtype'], 'ops': ops} if hi == 37 and si == 0 else None)
+            chk.tagc('alias_request:' + str(sv['req'] if sv['req'] in (None, 'smallest', 'compat') else 'explicit'))
+            pred = None
+            d1 = diff_keys(sv['before'], sv['after'])
+            if d1:
+                pred = f"alias history save {sv['j']}: image changed by a save ({sv['res']}): {d1}"
+            elif sv['k'] is None:
+                fres, fbytes = sv['fresh']
+                if sv['res'] != fres:
+                    pred = (f"alias history save {sv['j']} (request {sv['req']}): outcome {sv['res']} differs from a fresh image "
+                            f'with the same data and request ({fres})')
+                elif fres == 'ok' and sv['bytes'] != fbytes:
+                    pred = (f"alias history save {sv['j']} (request {sv['req']}): bytes differ from what a fresh image with the "
+                            'same data and the currently requested alias/dtype writes')
+            f = (mres[hi][si] or '').split()
+            dis = None
+            if len(f) < 4 or (f[1], f[2], f[3][3:]) != (sv['res'], f"n={sv['n']}", sv['state']):
+                dis = ('outcome/calls/final state', ' '.join(f[:4]), f"{sv['res']} n={sv['n']} st={sv['state']}")
+            elif sv['res'] == 'ok':
+                wh = written_header_fields(base, sv['bytes'])
+                mh = [x for x in f[4][4:].split(',') if x[1:].startswith('w:hdr(')] if len(f) > 4 else []
+                if len(mh) != 1 or mh[0][7:-1] != wh:
+                    dis = ('header block written (datatype the alias resolved to)', str(mh), wh)
+            if pred:
+                report(chk, 'property_violation', case=case, predicate=pred, theorem='C07_retry_correct',
+                       impl_output={'result': sv['res'], 'request': sv['req']}, model_output=' '.join(f[:4]))
+            if dis:
+                chk.disagreements += 1
+                if not pred:
+                    report(chk, 'correspondence', case=case, model_output=dis[1][:300], impl_output=str(dis[2])[:300], found_input=False,
+                           predicate='model and implementation disagree at alias history: ' + dis[0],
+                           theorem='correspondence C07/Model.v nifti_save <-> Nifti1Pair.to_file_map')
+
+
 def measure_nmat():
     """Number of write calls scipy.io.savemat makes for the SPM .mat (external code)."""
     spec = specs_for('Spm99AnalyzeImage', 'int')
@@ -665,7 +821,7 @@ def part_compressed(chk):
     combos = []
     for cls, ext in [('Nifti1Image', '.nii'), ('Nifti2Image', '.nii'), ('Nifti1Pair', '.img'), ('AnalyzeImage', '.img'),
                      ('Spm99AnalyzeImage', '.img'), ('MGHImage', '.mgh'), ('Cifti2Image', '.dscalar.nii')]:
-        for variant in ('f2i', 'int', 'smallest'):
+        for variant in ('f2i', 'int', 'smallest', 'xflip_false'):
             spec = specs_for(cls, variant)
             if spec is None:
                 continue
@@ -806,7 +962,7 @@ def run(chk: Check):
                 'slope/intercept, user offset, header extensions, unsupported override, 4-D}: k swept over ALL '
                 'write/seek/tell/close calls of the clean run (every call failing in turn) + the clean run, each followed '
                 'by a retry of the same object to a healthy destination; seeded random specs (class, shape, dtypes, '
-                'alias, preset scaling, offsets, extensions) swept the same way; /dev/full destinations (real ENOSPC at '
+                'alias, preset scaling, offsets, extensions, default_x_flip) swept the same way; alias-switching histories (exhaustive over 3 operations + random) compared with fresh images; /dev/full destinations (real ENOSPC at '
                 'close); two saves through file names for plain/.gz/.bz2/.zst; a case = (spec, k), non-trivial when the '
                 'save makes at least one file call')
     chk.assumptions = ['a fault is an exception raised by a destination file-object call before the call has any effect '
@@ -850,6 +1006,7 @@ def run(chk: Check):
         ncalls[name] = n if name != 'random' else ncalls.get(name, 0) + n
     chk.extra['calls_per_fixed_case'] = {k: v for k, v in ncalls.items() if k != 'random'}
     part_histories(chk, [sp for nm, sp in usable if nm != 'random'], nmat)
+    part_alias_histories(chk, nmat)
     part_devfull(chk, nmat)
     part_compressed(chk)
     part_vm(chk, lines)
@@ -969,6 +1126,18 @@ def _replay(chk, obj):
         print({'result': res, 'changed': d1})
         print('property fails on this case' if badp else 'property holds on this case')
         return 1 if badp else 0
+    if isinstance(c, dict) and 'alias_history' in c:
+        h = c['alias_history']
+        faults = {int(k): v for k, v in (h.get('faults') or {}).items()}
+        bad = False
+        for sv in run_alias_history(h['base'], h['ops'], faults):
+            d1 = diff_keys(sv['before'], sv['after'])
+            same = None if sv['k'] is not None else (sv['res'] == sv['fresh'][0] and (sv['res'] != 'ok' or sv['bytes'] == sv['fresh'][1]))
+            print({'save': sv['j'], 'request': sv['req'], 'k': sv['k'], 'result': sv['res'], 'changed': d1, 'same_as_fresh_image': same})
+            if d1 or same is False:
+                bad = True
+        print('property fails on this case' if bad else 'property holds on this case')
+        return 1 if bad else 0
     if isinstance(c, dict) and 'history' in c:
         spec, steps = c['history']['spec'], c['history']['steps']
         if spec.get('preset'):
